@@ -8,9 +8,11 @@
      k=3 Coq's sem_out on the OBSERVED AST <> intended (some neighbor, route, ft, um; F15 shape skipped)
      k=4 observed AST references an undefined list   k=5 sequence numbers not increasing
      k=6 Python port of sem_out <> Coq's sem_out on the observed AST
-     k=7 observed AST accepts an inbound route       k=8 originated networks <> requested *)
+     k=7 observed AST accepts an inbound route       k=8 originated networks <> requested
+     k=9 (informational, not a mismatch) the generated session set or a probe route is outside the premises
+         wf_sessions / route_ok of C14_frr_out_exact *)
 From Coq Require Import List NArith Bool String.
-From Verif Require Export Model.FrrRender Model.FrrSem.
+From Verif Require Export Model.FrrSpec.
 Import ListNotations.
 Open Scope string_scope.
 
@@ -22,7 +24,6 @@ Record fcase := mk_fcase {
 
 Definition combos : list (bool * bool) := [(false, false); (false, true); (true, false); (true, true)].
 
-Definition f15_shape (s : session) : bool := nonempty (s_iface s) && s_disable_mp s.
 
 Definition sem_vs_intended (c : frr) (S : list session) (routes : list pfx) : bool :=
   forallb (fun s =>
@@ -64,6 +65,7 @@ Definition codes (c : fcase) : list N :=
   let k (b : bool) (n : N) := if b then [] else [(10 * fc_id c + n)%N] in
   k (opt_eqb frr_eqb r (fc_obs c)) 1%N ++
   k (opt_eqb frr_eqb (render (fc_Sperm c)) r) 2%N ++
+  k (wf_sessions_b (fc_S c) && forallb (route_ok_b (fc_S c)) (fc_routes c)) 9%N ++
   match fc_obs c with
   | None => []
   | Some o =>
